@@ -21,7 +21,7 @@ RULE = ("relative sequences shorter than / equal to / longer than the capacity, 
         "or two signature events, x 12 signatures x keys; non-trivial = sequence has notes or a signature event")
 ASSUMPTIONS = ["model: SCoda.mkBar (Model/Bar.lean), tied by correspondence",
                "a repeated identical signature is removed by the constructor's normalise() before the count, so it is accepted (DESIGN C10)"]
-SIGS = [(4, 4), (3, 4), (2, 4), (6, 8), (5, 8), (7, 8), (2, 2), (3, 8), (12, 8), (1, 4), (9, 8), (4, 8)]
+SIGS = [(4, 4), (3, 4), (2, 4), (6, 8), (5, 8), (7, 8), (2, 2), (3, 8), (12, 8), (1, 4), (9, 8), (4, 8), (8, 8), (8, 8)] + G.ALL_SIGS
 
 
 def o_bar(inp):
@@ -42,7 +42,7 @@ def o_bar(inp):
                 cur = (m[NUM], m[DEN])
     _, dur = rel_timed(rel)
     try:
-        b = Bar(P.seq_of_rel(rel), n, d, None if key is None else KEYS[key])
+        b = Bar(P.seq_in_state(rel, inp.get("state", "rel")), n, d, None if key is None else KEYS[key])
     except BarException:
         b = None
     except Exception as e:
@@ -96,7 +96,8 @@ def generate(ctx):
             rel.insert(rng.randint(0, len(rel)), G.pm(TIMESIG, 0, None, num=n, den=d)); kind = "matching"
         elif k < 0.4:
             # conflicting value: different length, or the same bar length spelled differently (6/8 in a 3/4 bar)
-            cn, cd = rng.choice([(n + 1, d), (2 * n, 2 * d), (2 * n, 2 * d), (n, 2 * d)] + ([(n // 2, d // 2)] if n % 2 == 0 and d % 2 == 0 else []))
+            cn, cd = rng.choice([(n + 1, d), (2 * n, 2 * d), (2 * n, 2 * d), (n, 2 * d)] + ([(n // 2, d // 2)] if n % 2 == 0 and d % 2 == 0 else [])
+                                + [x for x in [G.any_sig(rng), G.any_sig(rng), (8, 8), (4, 4)] if x != (n, d)])
             rel.insert(rng.randint(0, len(rel)), G.pm(TIMESIG, 0, None, num=cn, den=cd)); kind = "conflicting"
             if 96 * cn * d == 96 * n * cd:
                 ctx.count("sig:conflicting-same-length")
@@ -109,6 +110,9 @@ def generate(ctx):
         ctx.count("len:" + ("short" if dur < cap else "exact" if dur == cap else "long"))
         ctx.case((rel, n, d, key), len(notes) > 0 or kind != "no-sig")
         ctx.check("bar", {"rel": rel, "n": n, "d": d, "key": key})
+        if i % 4 == 0:
+            ctx.count("wrapper-states")
+            ctx.check("bar", {"rel": rel, "n": n, "d": d, "key": key, "state": rng.choice(P.SEQ_STATES[1:])})
         ctx.corr("bar", P.op_bar(n, d, key, rel))
         ctx.corr("barCopy", P.op_barCopy(n, d, key, rel))
         ctx.sample({"rel": rel[:8], "n": n, "d": d, "key": key})
